@@ -426,7 +426,7 @@ func vC14Accepted(cfg vVecCfg) bool {
 func init() {
 	vRegister(&vCheck{
 		ID: "C14", Level: "model_checking", Engine: "histmc",
-		Rule:        "For kind in {pq, ivfpq} x metric x dim x M x nlist x EVERY nbits in 1..16 that the constructor accepts (rejected sizes are counted, not judged): train on a lattice of max(Ksub, 10*nlist) points, BFS over Add/Remove/Flush histories; in every state, from the private codebooks/centroids/codes: each code is a nearest codeword of the (residual) sub-vector, every reported score equals the Euclidean distance between the preprocessed query (residual) and the reconstruction, the result is the exact top-k by that score (within a valid set of p nearest clusters for partial probes), and |score - true Euclidean distance| <= quantisation error. Both Train preconditions are probed at their boundary sizes (Ksub-1, Ksub, Ksub+1, 10*nlist-1, 10*nlist): clean error or a working index, never a panic. Non-trivial = distinct (config, state, query, id) bound checks and partial-probe cases, plus the generic C02 rule.",
+		Rule:        "For kind in {pq, ivfpq} x metric x dim x M x nlist x EVERY nbits in 1..16 that the constructor accepts (rejected sizes are counted, not judged): train on a lattice of max(Ksub, 10*nlist) points, BFS over Add/Remove/Flush histories; in every state, from the private codebooks/centroids/codes: each code is a nearest codeword of the (residual) sub-vector, every reported score equals the Euclidean distance between the preprocessed query (residual) and the reconstruction, the result is the exact top-k by that score (within a valid set of p nearest clusters for partial probes), and |score - true Euclidean distance| <= quantisation error. Both Train preconditions are probed at their boundary sizes (Ksub-1, Ksub, Ksub+1, 10*nlist-1, 10*nlist): clean error or a working index, never a panic. Non-trivial = distinct (config, state, query, id) bound checks and partial-probe cases, plus the generic C02 rule. Training sets with one exactly constant, non-zero subspace (Euclidean family).",
 		Assumptions: []string{"nbits 1..10 in quick, 1..16 in thorough", "float tolerance 1e-5 relative"},
 		Shards: func(tier string) []vShard {
 			var sh []vShard
